@@ -30,7 +30,7 @@ def pCfg (s : String) : Bool :=
   | _ => false
 
 def pSlot : String → Option Slot
-  | "a" => some .a | "b" => some .b | "c" => some .c | "h" => some .h | _ => none
+  | "a" => some .a | "b" => some .b | "c" => some .c | "h" => some .h | "p" => some .p | _ => none
 
 def pFn (s : Slot) (f : String) : Option Fn :=
   if s == .h then
